@@ -465,7 +465,7 @@ def fault_kind(f):
         return "write:" + f["kind"]
     if f["op"] == "git":
         return "git:" + f["kind"]
-    if f["op"] in ("interrupt", "memerror", "kill"):
+    if f["op"] in ("interrupt", "memerror", "kill", "powerloss"):
         return f["op"]
     return "%s:%s" % (f["op"], f.get("errno"))
 
